@@ -107,7 +107,11 @@ ASSUMPTIONS = [
     "uses cases on which every float operation is exact, the oracle checks 'up to rounding' numerically on the others",
     "'{:f}' / repr formatting of numbers in CSV output is not modelled (rows are tuples of numbers in the model); the "
     "harness parses the text back",
-    "iter_cells(coord_ranges=...) is outside the model (index ranges are modelled)",
+    "iter_cells(coord_ranges=...) is modelled on top of C06's model of get_bin_on_value_1d (Lena.C06.bin1d) run with the "
+    "trivial interpolation guess ind_min; by C06's theorem bin1d_guess_independent the result does not depend on the guess",
+    "relational vocabulary of the scale_to theorems (ItemDone, AllDone, ItemFails, LoopPost) consists of propositions "
+    "over the model function structScale and equality only; it is not executed (nothing to validate beyond structScale)",
+    "repr() of floats in the CSV of graphs is not modelled (rows of numbers only); '{:f}' of histograms is",
     "operands are not modified / results do not alias operands: not expressible in the pure value model; checked by "
     "snapshots and identity checks on the real objects",
 ]
@@ -129,7 +133,18 @@ RULE = ("cases per op over histograms of every shape 1..4 (1-dim), 1..3 x 1..3 (
         "histograms, graphs and objects without scale, scale_get (scale(recompute) with fresh, stale and missing stored "
         "scale), graph_add (graph + graph with and without error fields, equal and unequal numbers of points), mk_hist "
         "(valid and invalid constructor arguments). About 15 % of the histograms have their edges as tuples (nested "
-        "tuples or a list of tuples). Non-trivial: the structure has at least two cells/points and "
+        "tuples or a list of tuples). Extension round: iter_coord (iter_cells with coord_ranges: coordinates on edges, "
+        "inside bins, outside; single pair / tuple of pairs / wrong count / together with ranges), bin_edges and "
+        "bin_on_index (number and tuple indices, in and out of range), csv_text (the complete CSV text incl. header, "
+        "separator, row_end, last_row_end and '{:f}' rounding of arbitrary floats, ties k/128, bins that are lists, data "
+        "without rows()), csv_flow and h2g_flow (two or three values through ONE ToCSV / HistToGraph element), h2g_el "
+        "(the HistToGraph element: make_value None / Variable / not a Variable, context.histogram.to_graph, "
+        "non-histograms), GroupScale on a non-sequence, graph + non-graph. Enumerated first: every shape x every "
+        "histogram operation, every valid naming, the prefix/extension edges of add; then a seeded random mixture of all "
+        "operations (5.5 k quick / 200 k thorough), produced lazily. With every case the specification vocabulary of the "
+        "theorems (Model/C12Spec.lean: wfB, validB, inRangeB, validRangesB, selAll/rangePred, cellEdgesRef, cellRow, "
+        "pointOf, rowsFor, bins1d/2d, errorFieldOfB, edgesNotAbove; NArr.map/values/zipWith/get?/indexProd) is executed "
+        "by the driver and compared with Python reference computations. Non-trivial: the structure has at least two cells/points and "
         "the operation returned a non-empty result, or an exception was raised.")
 CASE_TIMEOUT = 10
 
@@ -973,7 +988,7 @@ def gen_cases(ctx):
             yield graph_case(rng, names, form=form)
     # the random mixture
     makers = [m for w, m in MIXTURE for _ in range(w)]
-    for _ in range(360000 if thorough else 5500):
+    for _ in range(200000 if thorough else 5500):
         yield rng.choice(makers)(rng)
 
 
